@@ -385,6 +385,9 @@ let judge_step (si : stepinfo) =
                  "arg_em", (if arg >= 0 then flag_of si.pre arg "EM" else "-");
                  "arg_cu", (if arg >= 0 then flag_of si.pre arg "CU" else "-");
                  "arg_gu", (if arg >= 0 then flag_of si.pre arg "GU" else "-");
+                 "arg_cm", (if arg >= 0 then flag_of si.pre arg "CM" else "-");
+                 "arg_gm", (if arg >= 0 then flag_of si.pre arg "GM" else "-");
+                 "tgt_ln", flag_of si.pre o "LN"; "arg_ln", (if arg >= 0 then flag_of si.pre arg "LN" else "-");
                  "div_ne1", bool_s last_div.(o) ] in
   bump (Printf.sprintf "opflags:%s:EM%s.CU%s.CM%s.GU%s.GM%s" si.op (flag_of si.pre o "EM") (flag_of si.pre o "CU")
           (flag_of si.pre o "CM") (flag_of si.pre o "GU") (flag_of si.pre o "GM"));
